@@ -453,5 +453,119 @@ func runC19OSServer(c *Ctx) {
 			c.Oracle("FAIL oss%d os-server:%s:differs-from-server %s(%q,%q) through sftpfs: %s, tree %s; the server itself (raw client): %s, tree %s", i, op.name, op.name, op.a, op.b, res[0], trees[0], res[1], trees[1])
 		}
 	}
-	c.Extra["os-server"] = fmt.Sprintf("%d calls (Remove, Mkdir, Stat, Rename x %d spellings: trailing and doubled separators, dot elements, names below a regular file) against sftp.NewServer over a temporary directory, each compared with the same request sent by a raw client on a twin tree (oracle only)", n, len(names))
+	// handles with real handle semantics (the in-memory handler answers FSTAT by path and panics on a
+	// negative size), and MkdirAll spellings the server resolves element by element
+	mkTree := func(root string) {
+		os.MkdirAll(root+"/d/e", 0o755)
+		os.WriteFile(root+"/d/f", []byte("hello"), 0o644)
+		os.WriteFile(root+"/g", []byte("hello"), 0o644)
+	}
+	type hres struct{ res, tree string }
+	handleScenario := func(i int, what string, viaFs func(root string) string, raw func(root string) string) {
+		var r [2]hres
+		for side := 0; side < 2; side++ {
+			root := filepath.Join(top, fmt.Sprintf("h%d_%d", i, side))
+			mkTree(root)
+			if side == 0 {
+				r[side].res = viaFs(root)
+			} else {
+				r[side].res = raw(root)
+			}
+			r[side].tree = tree(root)
+			if b, err := os.ReadFile(root + "/g"); err == nil {
+				r[side].tree += " g=" + string(b)
+			}
+			if b, err := os.ReadFile(root + "/g2"); err == nil {
+				r[side].tree += " g2=" + string(b)
+			}
+			os.RemoveAll(root)
+		}
+		n++
+		c.Count("osserver.handle." + what)
+		if r[0] != r[1] {
+			c.Oracle("FAIL ossh%d os-server:%s:differs-from-server %s through sftpfs: %s, tree %s; the server itself (raw client or the OS): %s, tree %s", i, what, what, r[0].res, r[0].tree, r[1].res, r[1].tree)
+		}
+	}
+	okerr := func(err error) string {
+		if err != nil {
+			return "err"
+		}
+		return "ok"
+	}
+	handleScenario(0, "HStat-after-Rename", func(root string) string {
+		h, err := fs.OpenFile(root+"/g", os.O_RDWR, 0)
+		if err != nil {
+			return "open:" + okerr(err)
+		}
+		defer h.Close()
+		fs.Rename(root+"/g", root+"/g2")
+		os.WriteFile(root+"/g", []byte("another file, longer"), 0o644)
+		fi, err := h.Stat()
+		if err != nil {
+			return "stat:err"
+		}
+		return fmt.Sprintf("stat:ok:%d", fi.Size())
+	}, func(root string) string {
+		h, err := c2.OpenFile(root+"/g", os.O_RDWR)
+		if err != nil {
+			return "open:" + okerr(err)
+		}
+		defer h.Close()
+		c2.Rename(root+"/g", root+"/g2")
+		os.WriteFile(root+"/g", []byte("another file, longer"), 0o644)
+		fi, err := h.Stat()
+		if err != nil {
+			return "stat:err"
+		}
+		return fmt.Sprintf("stat:ok:%d", fi.Size())
+	})
+	handleScenario(1, "HStat-after-Remove", func(root string) string {
+		h, err := fs.OpenFile(root+"/g", os.O_RDWR, 0)
+		if err != nil {
+			return "open:" + okerr(err)
+		}
+		defer h.Close()
+		fs.Remove(root + "/g")
+		fi, err := h.Stat()
+		if err != nil {
+			return "stat:err"
+		}
+		return fmt.Sprintf("stat:ok:%d", fi.Size())
+	}, func(root string) string {
+		h, err := c2.OpenFile(root+"/g", os.O_RDWR)
+		if err != nil {
+			return "open:" + okerr(err)
+		}
+		defer h.Close()
+		c2.Remove(root + "/g")
+		fi, err := h.Stat()
+		if err != nil {
+			return "stat:err"
+		}
+		return fmt.Sprintf("stat:ok:%d", fi.Size())
+	})
+	for k, size := range []int64{-1, -4096, 2, 9} {
+		size := size
+		handleScenario(2+k, fmt.Sprintf("HTruncate(%d)", size), func(root string) string {
+			h, err := fs.OpenFile(root+"/g", os.O_RDWR, 0)
+			if err != nil {
+				return "open:" + okerr(err)
+			}
+			defer h.Close()
+			return "truncate:" + okerr(h.Truncate(size))
+		}, func(root string) string {
+			h, err := c2.OpenFile(root+"/g", os.O_RDWR)
+			if err != nil {
+				return "open:" + okerr(err)
+			}
+			defer h.Close()
+			return "truncate:" + okerr(h.Truncate(size))
+		})
+	}
+	for k, sp := range []string{"/m/../n/o", "/g/../p", "/d/../d/e/x", "/d/f/../q", "/m/./n//o/", "/d/e/../../r/s"} {
+		sp := sp
+		handleScenario(10+k, "MkdirAll-spelling", func(root string) string { return sp + ":" + okerr(fs.MkdirAll(root+sp, 0o755)) },
+			func(root string) string { return sp + ":" + okerr(os.MkdirAll(root+sp, 0o755)) })
+	}
+	c.Extra["os-server"] = fmt.Sprintf("%d calls (Remove, Mkdir, Stat, Rename x %d spellings: trailing and doubled separators, dot elements, names below a regular file) against sftp.NewServer over a temporary directory, each compared with the same request sent by a raw client on a twin tree; plus Stat through a handle whose file was renamed/removed, Truncate with negative sizes, MkdirAll spellings with \"..\" compared with os.MkdirAll (oracle only)", n, len(names))
 }
